@@ -64,7 +64,7 @@ def run(ctx):
     events, tags = judge_traces(ctx, "DecimalTrace", traces, timeout=1500)
 
     def corrupt(e):
-        if e["event"] == "Parse" and e["ok"] and e["out"]["b"]:
+        if e["event"] == "Parse" and e["ok"] and e["out"]["b"] and e["lit"]["int"] and (e["lit"]["frac"] or not e["lit"]["dot"]):
             e["out"]["b"][-1] ^= 1
             return True
         return False
